@@ -1219,6 +1219,8 @@ def search(ob, wit=None):
                 if r:
                     break
         return r
+    if "data_types.py::ImageMetadata." in ob:
+        return check_metadata_mirror()
     if "data_types.py" in ob and any(f".{m}/" in ob for m in ("get_metadata", "get_content_type", "get_bytes")):
         q = ob.split("::")[1].split("/")[0]
         return check_accessors(q.split(".")[0], q.split(".")[1])
@@ -1335,6 +1337,31 @@ def check_ct_helper(which):
                 got = f"raised {type(e).__name__}: {e}"
             if got != want:
                 return {"target": f"{which}({name!r})", "aspect": "content-type", "inputs": {"name": name}, "expected": want, "observed": repr(got)}
+    return None
+
+
+def check_metadata_mirror():
+    """ImageMetadata: the dict view (the statement's observation `dict(i.get_metadata())`) equals the attribute view, after construction
+    (keyword / positional / defaults) and after attribute assignment."""
+    import itertools
+    dt = _imp("sharepoint2text.parsing.extractors.data_types")
+    M = getattr(dt, "ImageMetadata", None)
+    if M is None:
+        return None
+    keys = ("unit_number", "image_number", "content_type", "width", "height")
+    for u, n, ct, w, h in itertools.product((None, 3), (0, 7), ("", "image/png"), (None, 131), (None, 184)):
+        want = dict(zip(keys, (u, n, ct, w, h)))
+        mds = [("keywords", M(**want)), ("positional", M(u, n, ct, w, h))]
+        late = M()
+        for k, v in want.items():
+            setattr(late, k, v)
+        mds.append(("attribute assignment", late))
+        for how, md in mds:
+            got = dict(md)
+            attrs = {k: getattr(md, k, "<absent>") for k in keys}
+            if got != want or attrs != want:
+                return {"target": f"ImageMetadata ({how})", "aspect": "accessors", "inputs": {k: repr(v) for k, v in want.items()},
+                        "expected": f"dict view == attribute view == {want}", "observed": f"dict {got}, attributes {attrs}"}
     return None
 
 
